@@ -281,8 +281,11 @@ def branch_count(F, path):
 
     def walk(x):
         if isinstance(x, dict):
-            if x.get('k') in ('If', 'Match', 'Loop'):
+            k = x.get('k')
+            if k in ('If', 'Loop'):
                 n[0] += 1
+            elif k == 'Match' and x.get('src', 'Normal') == 'Normal':
+                n[0] += max(1, len(x.get('arms', [])) - 1)
             for v in x.values():
                 walk(v)
         elif isinstance(x, list):
@@ -295,7 +298,7 @@ def branch_count(F, path):
     return n[0]
 
 
-def local_policy(F, root, events=(), keep=(), also_inline=(), public_events=False, max_branches=14, **kw):
+def local_policy(F, root, events=(), keep=(), also_inline=(), public_events=False, max_branches=16, **kw):
     """The policy the rules use to look *through* helper functions: every function written in the same source
     file as `root` (helpers extracted next to it, private methods, closures) is inlined, whatever its name or
     visibility; calls matching `events` are kept opaque and recorded in the trace; calls matching `keep` are
